@@ -59,10 +59,21 @@ package tabula
 //@   ensures parent_unchanged: e == old(e)
 //@   ensures pages_appended: !isnil(res) && sameSource(res, e) && sameFlags(res.options, e.options) && len(res.options.pages) == len(e.options.pages) + len(pages) && (forall k int :: {res.options.pages[k]} 0 <= k && k < len(e.options.pages) ==> res.options.pages[k] == e.options.pages[k]) && (forall k int :: {pages[k]} 0 <= k && k < len(pages) ==> res.options.pages[len(e.options.pages) + k] == pages[k])
 
-//@ func (*Extractor) PageRange
+// chained selections accumulate: the range is APPENDED to whatever was selected before
+//@ func (*Extractor) PageRange results (res)
 //@   property C10
-//@   flags frameonly, noalias
+//@   flags noalias, nosafety
 //@   fresh pages
+//@   ensures parent_unchanged: e == old(e)
+//@   ensures range_same_configuration: !isnil(res) && sameSource(res, e) && sameFlags(res.options, e.options)
+//@   ensures range_length: len(res.options.pages) == len(e.options.pages) + (end >= start ? end - start + 1 : 0)
+//@   ensures range_earlier_selection_kept: forall k int :: {res.options.pages[k]} 0 <= k && k < len(e.options.pages) ==> res.options.pages[k] == e.options.pages[k]
+//@   ensures range_appended: forall j int :: {res.options.pages[j]} len(e.options.pages) <= j && j < len(res.options.pages) ==> res.options.pages[j] == start + (j - len(e.options.pages))
+//@   loop 0:
+//@     invariant !isnil(newExt) && sameSource(newExt, e) && sameFlags(newExt.options, e.options) && e == old(e) && start <= i && (end >= start ==> i <= end + 1) && (end < start ==> i == start)
+//@     invariant len(newExt.options.pages) == len(e.options.pages) + (i - start)
+//@     invariant forall k int :: {newExt.options.pages[k]} 0 <= k && k < len(e.options.pages) ==> newExt.options.pages[k] == e.options.pages[k]
+//@     invariant forall j int :: {newExt.options.pages[j]} len(e.options.pages) <= j && j < len(newExt.options.pages) ==> newExt.options.pages[j] == start + (j - len(e.options.pages))
 
 // ---- C10: after any terminal operation, successful or failed, no file handle remains open ----
 // typestate rule: a successful ensureReader() is immediately followed by `defer e.Close()`, so the reader opened for
